@@ -496,8 +496,22 @@ func muxFrameDomain(assume map[string]bool) bool {
 		return false
 	}
 	// ... or whose ALPH header declares more bytes than the data holds
-	if v, ok := assume["(len(elem(m.frames).data)-u32(elem(m.frames).data[4:+4])-7)>0"]; ok && !v && isAlph {
-		return false
+	// (any assumption equivalent to  8 + S > len(data), whichever way the code wrote the test)
+	if isAlph {
+		T := linA("len(elem(m.frames).data)").sub(linA("u32(elem(m.frames).data[4:+4])")).sub(linC(7)) // T > 0 <=> the payload fits
+		for k, v := range assume {
+			lv, ok := keyLins.Load(k)
+			if !ok {
+				continue
+			}
+			l := lv.(Lin)
+			if !v && l.eq(T) { // !(T > 0)
+				return false
+			}
+			if v && l.eq(T.scale(-1).add(linC(1))) { // -T+1 > 0  <=>  T <= 0
+				return false
+			}
+		}
 	}
 	return true
 }
@@ -541,7 +555,7 @@ func runC14(c *Ctx) {
 		before := c.Count("R1-advance")
 		checkReaders(c, p, "mux", readerFile, max)
 		checkReaders(c, p, "internal/container", readerFile, max)
-		c.Floor("R1-advance", c.Count("R1-advance")-before, 5)
+		c.Floor("R1-advance", c.Count("R1-advance")-before, 3)
 	}
 }
 
